@@ -209,6 +209,21 @@ def rand_stereo_mol(rng, ndb=None):
         else:
             while len(m.adj[a2]) - 1 < want2:
                 _subst(rng, m, a2)
+    # explicitly written hydrogens ([H]/C(F)=C/Cl, the imine [H]/N=C…) and imine nitrogens: only where the
+    # hydrogen is the ONLY hydrogen of its anchor, so that it can be recognised in the returned molecule
+    for a1, a2 in m.stereo:
+        for A, B in ((a1, a2), (a2, a1)):
+            ligs = [n for n in m.adj[A] if n != B]
+            if len(ligs) != 1 or m.el[A] != 'C':
+                continue
+            r = rng.random()
+            if r < 0.25:
+                m.bond(A, m.add('H'))
+            elif r < 0.33 and len(m.adj[ligs[0]]) == 1 and m.el[ligs[0]] in HAL:
+                m.el[ligs[0]] = 'H'
+                m.el[A] = 'N'
+            elif r < 0.40:
+                m.el[A] = 'N'
     # sides and marks
     anchors = {a for sb in m.stereo for a in sb}
     partner = {}
@@ -238,13 +253,15 @@ def rand_stereo_mol(rng, ndb=None):
                     marked.add((l, A))
                     marked.add((A, l))
             if not any((l, A) in marked for l in ligs):
-                marked.add((rng.choice(ligs), A))
+                hl = [l for l in ligs if m.el[l] == 'H']
+                marked.add(((hl[0] if hl and rng.random() < 0.7 else rng.choice(ligs)), A))
             for l in ligs:
                 if (l, A) not in marked and rng.random() < 0.35:
                     marked.add((l, A))
     m.side = {k: v for k, v in side.items() if k in marked}
     # every atom must be recognisable: exactly one automorphism
     g = m.graph()
+    g = g.subgraph([n for n in g if m.el[n] != 'H'])
     gm = nx.isomorphism.GraphMatcher(g, g, node_match=lambda x, y: x['element'] == y['element'],
                                      edge_match=lambda x, y: x['order'] == y['order'])
     n_auto = 0
@@ -269,6 +286,9 @@ def first_token(m, first, second):
 
 def atom_text(m, a, rng, plain):
     e = m.el[a]
+    if e == 'H':
+        # an explicitly written hydrogen: plain bracket atom, or annotated (weight)
+        return '[H]' if plain or rng.random() < 0.7 else '[H;w=0.5]'
     if a in m.chiral and not plain:
         h = 4 - sum(m.bo(a, b) for b in m.adj[a]) if e == 'C' else 0
         hs = ('H' if h == 1 else 'H%d' % h) if (h > 0 and rng.random() < 0.6) else ''
@@ -612,7 +632,7 @@ def pysmiles_reads(m, rng):
         if not unambiguous(m, wb, stored_tokens(order, events)):
             continue
         try:
-            g = pysmiles.read_smiles(text, explicit_hydrogen=False)
+            g = pysmiles.read_smiles(text, explicit_hydrogen=True)
         except Exception:
             return False
         got = set()
@@ -766,21 +786,35 @@ def raw_graph_case(rng):
 
 
 def identify(g, mol):
-    """returned key -> atom id of the written molecule (element / bond order preserving isomorphism of the
-    heavy-atom graphs; unique by construction of the generator); None when there is none"""
+    """returned key -> atom id of the written molecule: element / bond order preserving isomorphism of the
+    heavy-atom graphs (unique by construction of the generator); an explicitly written hydrogen of the
+    molecule is the ONLY hydrogen on its neighbour (by construction), so it is recognised too.
+    None when there is no such identification."""
     want = nx.Graph()
     for k, e in enumerate(mol['atoms']):
-        want.add_node(k, element=e)
+        if e != 'H':
+            want.add_node(k, element=e)
     for a, b, o in mol['bonds']:
-        want.add_edge(a, b, order=o)
+        if a in want and b in want:
+            want.add_edge(a, b, order=o)
     heavy = g.subgraph([n for n, d in g.nodes(data=True) if d.get('element') != 'H'])
     if len(heavy) != len(want):
         return None
     gm = nx.isomorphism.GraphMatcher(heavy, want, node_match=lambda x, y: x.get('element') == y['element'],
                                      edge_match=lambda x, y: x.get('order') == y['order'])
-    for iso in gm.isomorphisms_iter():
-        return sorted(iso.items())
-    return None
+    iso = next(gm.isomorphisms_iter(), None)
+    if iso is None:
+        return None
+    iso = dict(iso)
+    inv = {v: k for k, v in iso.items()}
+    for a, b, o in mol['bonds']:
+        for h, x in ((a, b), (b, a)):
+            if mol['atoms'][h] == 'H':
+                hs = [n for n in g[inv[x]] if g.nodes[n].get('element') == 'H']
+                if len(hs) != 1:
+                    return None
+                iso[hs[0]] = h
+    return sorted(iso.items())
 
 
 class C15(common.Prop):
@@ -915,6 +949,8 @@ class C15(common.Prop):
         k = case.get('kind', '?')
         m = case['mol']
         tag = '%s db=%d chiral=%d' % (k, len(m['stereo']), min(len(m['chiral']), 2))
+        if 'H' in m['atoms']:
+            tag += ' explicit-H'
         if 'raw' in case:
             return 'unjudged:raw-graph ' + ('ok' if 'after_lit' in impl else str(impl.get('exc')))
         if 'raised' in impl:
@@ -1031,6 +1067,9 @@ _W1L = _wmol(['F', 'C', 'Cl', 'C', 'Br', 'I'], [(0, 1, 1), (1, 2, 1), (1, 3, 2),
 # Br-[C;x=S]H2-C(Cl)=C(F)I with the CH2 written before its anchor with '\\' (above), F after with '/' (above): cis
 _WL = _wmol(['Br', 'C', 'C', 'Cl', 'C', 'F', 'I'], [(0, 1, 1), (1, 2, 1), (2, 3, 1), (2, 4, 2), (4, 5, 1), (4, 6, 1)],
             [(2, 4)], [(1, 2, 'u'), (5, 4, 'u')], [(1, 'S')])
+# [H]/C(F)=C/Cl : H below, Cl above -> trans ; [H]/N=C(/C)F : H below, C above -> trans
+_WHX = _wmol(['H', 'C', 'F', 'C', 'Cl'], [(0, 1, 1), (1, 2, 1), (1, 3, 2), (3, 4, 1)], [(1, 3)], [(0, 1, 'd'), (4, 3, 'u')])
+_WIM = _wmol(['H', 'N', 'C', 'C', 'F'], [(0, 1, 1), (1, 2, 2), (2, 3, 1), (2, 4, 1)], [(1, 2)], [(0, 1, 'd'), (3, 2, 'u')])
 WITNESSES = [
     {'s': '{[#B][#A]}.{#A=F/C(Cl)=[$],#B=[$]=C(Br)/I}', 'mol': _W18, 'kind': 'known-finding witness', 'nparts': 2},
     {'s': '{[#A][#B]}.{#A=F/C(Cl)=[$],#B=[$]=C(Br)/I}', 'mol': _W18, 'kind': 'witness other order', 'nparts': 2},
@@ -1055,6 +1094,14 @@ WITNESSES = [
     {'s': '{[#A][#D][#B]}.{#A=Br[$h],#D=[C;x=S][$h]\\[$f],#B=[$f]\\C(Cl)=C(/F)I}', 'mol': _WL,
      'kind': 'fixed-finding witness (d472632) lone bracket atom without H', 'nparts': 3,
      'wb': [[1, 2, True, True], [5, 4, False, False]]},
+    # a marked substituent that is an explicitly written hydrogen (seeded/C15-3): inside a multi-atom fragment,
+    # as a fragment of its own, annotated; the imine
+    {'s': '{[#A]}.{#A=[H]/C(F)=C/Cl}', 'mol': _WHX, 'kind': 'witness explicit H', 'nparts': 1},
+    {'s': '{[#A][#B]}.{#A=[H]/C(F)=[$],#B=[$]=C/Cl}', 'mol': _WHX, 'kind': 'witness explicit H, cut at double bond', 'nparts': 2},
+    {'s': '{[#H][#A]}.{#H=[H]/[$],#A=[$]/C(F)=C/Cl}', 'mol': _WHX, 'kind': 'witness explicit H own fragment', 'nparts': 2,
+     'wb': [[0, 1, True, True], [4, 3, False, False]]},
+    {'s': '{[#A]}.{#A=[H;w=0.5]/C(F)=C/Cl}', 'mol': _WHX, 'kind': 'witness explicit H annotated', 'nparts': 1},
+    {'s': '{[#A]}.{#A=[H]/N=C(/C)F}', 'mol': _WIM, 'kind': 'witness imine explicit H', 'nparts': 1},
     # two-digit ring labels before labelled stereocentres (seeded/C15-1)
     {'s': '{[#A][#B]}.{#A=OC%10CCCC%10[$],#B=[$][C;x=R](F)[C;x=S](Cl)Br}', 'mol': None, 'kind': 'witness ring label', 'nparts': 2},
 ]
